@@ -101,6 +101,11 @@ CHECKS = {
          "Mode S enumerates histories over every ophost message type (two bridges, deposits, propose/delete/re-propose, claims, two batch-info updates, metadata, oracle flag, role updates, params, time) and every opchild message type (credited and refunded deposits, withdrawals, add/remove validators, params, bridge info, blocks). In every distinct state the module genesis is exported (with auth and bank carried along), validated, round-tripped through JSON, imported into a blank world by the real InitGenesis, re-exported (must be byte-identical), and a fixed probe script (every message type incl. wrong signers, stale/next deposits, claims against two indices, deletes, creation, two blocks; every query type) is run on original and clone: responses, errors, events, validator updates and final exports must be identical. L2: InitGenesis's validator updates applied to an empty CometBFT set = bonded set.",
          "Trusted: as C11/C06; auth and bank genesis import/export of the SDK. Bounded: depth 4/5 (L1) and 5/6 (L2).",
          "DESIGN.md §6 C16"),
+ "C18": ("model_checking",
+         "explicit-state IDDFS with every transition re-executed on the same node, on an independent node and under every map-iteration order (generated go build -overlay) + type-aware nondeterminism census",
+         "A stdlib-only type-aware census (go list -export + go/types) of the current tree's non-test, non-generated sources of both modules reports every map range, goroutine, select, channel operation, wall-clock, randomness and environment read; every map range is rewritten by a generated build overlay (leaving /repo untouched) to iterate in an order the harness chooses per goroutine; anything else outside the telemetry whitelist is a violation. Mode S over every message type of both modules plus blocks, oracle updates with three voters and an executor-change plan; every transition of every explored state is executed twice on the same node, once on a second independently constructed node loaded with the parent's raw store content, and once per permutation (all n! for n <= 4) at every instrumented map site it reaches (a re-run fails hard if the recorded site is not reached again). Response bytes, full error text, ordered events, gas, ordered validator updates and the digest of every store must be identical.",
+         "Trusted: Go toolchain (go list, go/types, -overlay); map iteration inside dependencies is exercised only by Go's own randomisation across the >= 3 executions of each transition. Bounded: depth 3/4 (L1) and 4/5 (L2).",
+         "DESIGN.md §6 C18, §4"),
 }
 NOT_YET = {}
 
